@@ -2,7 +2,7 @@ import Rpft.Drv.Json
 import Rpft.Drv.DataOps
 import Rpft.Index
 namespace Rpft.Drv.IndexD
-open Rpft.Drv
+open Rpft.Drv Rpft.Drv.DataOpsD
 open Lean Rpft Rpft.Index
 
 def getStrListD (j : Json) (k : String) : List Str :=
